@@ -9,6 +9,11 @@ def hx(b):
 
 
 class Case:
+    # wire: the harness gives the executors this case's commands in the shape the server's own parser
+    # produces (RESP-encoded, decoded by resp.ParseStream + ToCommand: make(bulkLen+2) buffers whose spare
+    # bytes hold CRLF) instead of exact-capacity slices (harness memrun: 4th field of the CASE line)
+    wire = False
+
     def __init__(self, name, dbs=1):
         self.name, self.dbs, self.lines = name, dbs, []
         self.nsteps = 0
@@ -21,7 +26,7 @@ class Case:
         self.lines.append("DUMP")
 
     def text(self):
-        return "CASE %s %d\n%s\nEND\n" % (self.name, self.dbs, "\n".join(self.lines))
+        return "CASE %s %d%s\n%s\nEND\n" % (self.name, self.dbs, " wire" if self.wire else "", "\n".join(self.lines))
 
 
 def write_prog(path, cases):
